@@ -18,14 +18,23 @@ use crate::pipe::*;
 
 pub struct Snip {
     pub name: String,
+    /// the program, plus generated scalar-parameter wrappers for functions taking boxes/enums/arrays/...
     pub code: String,
+    /// the program without wrappers (used when the wrappers do not compile)
+    pub plain: Option<String>,
 }
 
 /// E2E-CAIRO snippets + the hand-written extra programs (loops, recursion, dicts, locals across calls).
 pub fn snippets(tier: Tier) -> Vec<Snip> {
-    let mut v: Vec<Snip> = e2e_cairo().into_iter().map(|(name, code)| Snip { name: format!("e2e:{name}"), code }).collect();
+    let mut v: Vec<Snip> = e2e_cairo()
+        .into_iter()
+        .map(|(name, code)| {
+            let w = crate::wrap::wrappers(&code);
+            if w.is_empty() { Snip { name: format!("e2e:{name}"), code, plain: None } } else { Snip { name: format!("e2e:{name}"), code: format!("{code}\n{w}"), plain: Some(code) } }
+        })
+        .collect();
     for (name, code) in crate::progs::extra_programs(tier) {
-        v.push(Snip { name, code });
+        v.push(Snip { name, code, plain: None });
     }
     // whole files: examples/ and the regression programs of tests/bug_samples (test attributes removed so
     // the functions are ordinary functions, run with their scalar arguments or none)
@@ -45,7 +54,7 @@ pub fn snippets(tier: Tier) -> Vec<Snip> {
                 })
                 .map(|l| format!("{l}\n"))
                 .collect();
-            v.push(Snip { name: format!("file:{}", f.strip_prefix("/repo").unwrap().to_string_lossy().trim_start_matches('/')), code });
+            v.push(Snip { name: format!("file:{}", f.strip_prefix("/repo").unwrap().to_string_lossy().trim_start_matches('/')), code, plain: None });
         }
     }
     v
@@ -74,6 +83,16 @@ impl Dbs {
             return Err(format!("diagnostics: {}", diag.chars().take(300).collect::<String>()));
         }
         sierra(db, &ci)
+    }
+    /// Compiles a snippet with its generated wrappers, falling back to the plain program.
+    pub fn compile_snip(&mut self, cfg: &Cfg, snip: &Snip) -> Result<Program, String> {
+        match self.compile(cfg, &snip.code) {
+            Ok(p) => Ok(p),
+            Err(e) => match &snip.plain {
+                Some(plain) => self.compile(cfg, plain),
+                None => Err(e),
+            },
+        }
     }
     /// Full diagnostics text of `code` under `cfg` (untruncated).
     pub fn full_diagnostics(&mut self, cfg: &Cfg, code: &str) -> String {
